@@ -2809,7 +2809,7 @@ HMCPread(accrec_t *access_rec, /* IN: access record to mess with */
     else if (length < 0)
         HGOTO_ERROR(DFE_RANGE, FAIL);
 
-    if (access_rec->posn + length > (info->length * info->nt_size))
+    if (length > (info->length * info->nt_size) - access_rec->posn) /* no posn + length: it can overflow */
         length = (info->length * info->nt_size) - access_rec->posn;
 
     /* should chunk indices be updated with relative_posn?
